@@ -644,6 +644,7 @@ theorem step_inv {n : Nat} {σ : St} {s : Sid} (a : Act) (hI : Inv n σ) (hs : s
   | commit => exact inv_commitSess true hI
   | commitMid => exact inv_commitSess false hI
   | rollback => exact inv_fail s hI
+  | refused => exact hI
   | begin =>
     dsimp only
     cases hE : ensureTxn n σ s with
@@ -730,6 +731,7 @@ theorem step_frame {n : Nat} {σ : St} {s t : Sid} (a : Act) (hts : t ≠ s) (ht
     | commit => dsimp only; unfold commitSess; dsimp only; rw [if_neg (by simp [htin])]; simp [upd, hts.symm]
     | commitMid => dsimp only; unfold commitSess; dsimp only; rw [if_neg (by simp [htin])]; simp [upd, hts.symm]
     | rollback => dsimp only; rw [hfail]
+    | refused => rfl
     | begin =>
       dsimp only
       cases hE : ensureTxn n σ t with
@@ -828,6 +830,8 @@ theorem step_unguarded {n : Nat} {σ : St} {t : Sid} (a : Act) :
   | rollback =>
     simp only [reduceCtorEq, decide_false, Bool.false_and, Bool.or_false]
     rfl
+  | refused =>
+    simp only [reduceCtorEq, decide_false, Bool.false_and, Bool.or_false]
   | begin =>
     simp only [reduceCtorEq, decide_false, Bool.false_and, Bool.or_false]
     cases hE : ensureTxn n σ t with
